@@ -294,6 +294,37 @@ def check_iter(c, rec):
                 raise Violation("interleaved_iteration", f"iterator {j} yields beyond the end; schedule={c['sched']}")
 
 
+# ---- half precision: mean follows NumPy/PyTorch (float32 intermediates), also for long reductions -----------
+@st.composite
+def f16_cases(draw):
+    n = draw(st.sampled_from([3, 17, 200, 700, 1000, 2000, 4096]))
+    m = draw(st.sampled_from([1, 1, 2, 3]))
+    return {"n": n, "m": m, "base": draw(st.sampled_from([100.0, 64.0, 33.0, 250.0, 1.0, -100.0])),
+            "dim": draw(st.sampled_from([None, 0, -2, 1])), "keepdims": draw(st.booleans()),
+            "jit": draw(st.integers(0, 7))}
+
+
+def check_f16(c, rec):
+    n, m = c["n"], c["m"]
+    x = (c["base"] + ((np.arange(n * m) * 7 + c["jit"]) % 9 - 4)).astype(np.float16).reshape(n, m)
+    rec.nontrivial(abs(c["base"]) * n > 65504)       # a float16 accumulator would overflow / round badly
+    rec.tag("float16")
+    t = sg.Tensor(x.copy())
+    d = c["dim"]
+    try:
+        out = t.mean(d, c["keepdims"])
+    except Exception as e:  # noqa: BLE001
+        raise Violation("rejected_documented", f"mean of a float16 tensor raised {type(e).__name__}: {e}; {c}")
+    want = x.astype(np.float64).mean(axis=d, keepdims=c["keepdims"])
+    got = np.asarray(out.data, dtype=np.float64)
+    if got.shape != np.shape(want):
+        raise Violation("shape", f"float16 mean: shape {got.shape} != {np.shape(want)}; {c}")
+    tol = 2 * float(np.finfo(np.float16).eps) * np.maximum(1.0, np.abs(want))
+    if not np.all(np.isfinite(got)) or np.any(np.abs(got - want) > tol):
+        raise Violation("value", f"float16 mean over {n}x{m} values near {c['base']}: got {got.ravel()[:3].tolist()} exact "
+                                 f"{np.asarray(want).ravel()[:3].tolist()} (half-precision rounding allows {float(np.max(tol)):.3g}); {c}")
+
+
 # ---- enumerated grid of dim arguments (exhaustive in the thorough tier) --------------------------------
 def _all_shapes(max_rank, sides):
     import itertools
@@ -393,5 +424,6 @@ def subchecks():
                              quick=500, thorough=4000, shards_quick=2, shards_thorough=4))
     subs.append(SubCheck("constructors", check_ctor, ctor_cases, quick=600, thorough=8000, shards_thorough=2))
     subs.append(SubCheck("iteration", check_iter, iter_cases, quick=300, thorough=5000, shards_thorough=2))
+    subs.append(SubCheck("float16_mean", check_f16, f16_cases, quick=150, thorough=2000))
     subs.append(SubCheck("dim_grid", check_dim_grid, None, enum=enum_dims, exhaustive=True, shards_quick=8, shards_thorough=16))
     return subs
